@@ -466,3 +466,5 @@ def r5_9(cx):
 
 
 RULES = [('R5.1', r5_1), ('R5.2', r5_2), ('R5.3', r5_3), ('R5.4', r5_4), ('R5.6', r5_6), ('R5.7', r5_7), ('R5.8', r5_8), ('R5.9', r5_9)]
+RULES.append(('R5.10', scan_rule(('owning_iovec::',))))
+FLOORS['R5.10'] = 1
